@@ -77,6 +77,11 @@ func (c *Client) Close() error {
 		ctx, cancelFunc := context.WithTimeout(context.Background(), time.Second*5)
 		defer cancelFunc()
 		_, err := c.channel.FinishSession(ctx)
+		if err != nil {
+			// the server did not complete the finishing handshake: release the receiver goroutine and
+			// the connection anyway
+			_ = c.channel.Close()
+		}
 		c.channel = nil
 		return err
 	}
